@@ -90,3 +90,12 @@ m("C05-pad-replace-swapped", "C05", "padding.py", 'render.replace("\\n", f"{righ
 m("C05-pad-top-uses-left", "C05", "padding.py", 'top_padding = f"{fill * width}\\n" * top if top else ""', 'top_padding = f"{fill * width}\\n" * left if top else ""')
 m("C05-pad-empty-fill-writes", "C05", "padding.py", "            left_padding = cursor_forward(left)\n", "            left_padding = ' ' * left\n")
 m("C05-pad-vertical-only-skips-right", "C05", "padding.py", "        horizontal = left or right", "        horizontal = left")
+# ---- C01 block
+m("C01-block-trailing-nl", "C01", "image/block.py", "            if row_no < height:  # last line not yet rendered", "            if row_no <= height:  # last line not yet rendered")
+m("C01-block-run-short", "C01", "image/block.py", "                    buf_write(SGR_DEFAULT)\n                    buf_write(blank * n)\n                elif a_cluster1 == 0:", "                    buf_write(SGR_DEFAULT)\n                    buf_write(blank * (n - 1))\n                elif a_cluster1 == 0:")
+m("C01-block-no-final-reset", "C01", "image/block.py", "        buf_write(SGR_DEFAULT)  # Reset color after last line\n", "")
+m("C01-block-n-not-reset", "C01", "image/block.py", "                        a_cluster2 = a2\n                    n = 0\n", "                        a_cluster2 = a2\n")
+m("C01-block-kitty-r-overflow", "C01", "image/block.py", "                    r += r < 255 or -1", "                    r += 1")
+m("C01-sgr-template-broken", "C01", "_ctlseqs.py", 'SGR_FG_DIRECT = SGR % f"38;2;{Pm(3)}"', 'SGR_FG_DIRECT = SGR % f"38;2;{Pm(3)}" + CSI')
+m("C01-sgr-template-4params", "C01", "_ctlseqs.py", 'SGR_BG_DIRECT = SGR % f"48;2;{Pm(3)}"', 'SGR_BG_DIRECT = SGR % f"48;2;{Pm(2)};0{Ps}"')
+m("C01-block-equiv-dead-store", "C01", "image/block.py", "            row_no += 2\n            n = 0\n", "            row_no += 2\n            n = 1\n            n = 0\n", expect="held")
